@@ -137,7 +137,9 @@ class Scanner:
 
     def scan_grammar_doc_inner(self) -> StateFn | None:
         if self.peek() in (" ", "\t"):
+            # `space?` separates the marker from the text; it is not part of it.
             self.next()
+            self.start = self.pos
 
         if (value := self.scan_until(RE_NEWLINE)) is None:
             # The comment is the last line of the grammar.
@@ -195,7 +197,9 @@ class Scanner:
 
     def scan_rule_doc_inner(self) -> StateFn | None:
         if self.peek() in (" ", "\t"):
+            # `space?` separates the marker from the text; it is not part of it.
             self.next()
+            self.start = self.pos
 
         if (value := self.scan_until(RE_NEWLINE)) is None:
             # The comment is the last line of the grammar.
